@@ -2,6 +2,11 @@ use super::annotation_kind::ZAlpha;
 use num_bigint::BigUint;
 use regex::Regex;
 
+// The Stark252 field prime; recorded values must be canonical field elements.
+pub fn felt_prime() -> BigUint {
+    (BigUint::from(1u8) << 251) + (BigUint::from(17u8) << 192) + BigUint::from(1u8)
+}
+
 pub trait FromStrHex: Sized {
     fn from_str_hex(val: &str) -> Option<Self>;
 }
@@ -55,10 +60,17 @@ pub fn extract_annotations(
     for line in annotations {
         if let Some(cap) = re.captures(line) {
             let str_value = &cap[3];
+            let parse = |v: &str| {
+                BigUint::from_str_hex(v)
+                    .filter(|val| *val < felt_prime())
+                    .ok_or(anyhow::anyhow!("Invalid value in annotation: {line}"))
+            };
             if kind == "Field Elements" {
-                res.extend(str_value.split(',').filter_map(BigUint::from_str_hex));
-            } else if let Some(val) = BigUint::from_str_hex(str_value) {
-                res.push(val)
+                for v in str_value.split(',') {
+                    res.push(parse(v)?);
+                }
+            } else {
+                res.push(parse(str_value)?);
             }
         }
     }
